@@ -796,7 +796,7 @@ func checkC19(c *run.Ctx) {
 	}
 	c.Sample(map[string]any{"shared_map_slots": fmt.Sprint(sh.m.VerifSlots()), "goroutines": c19Goroutines, "rounds": rounds, "max_simultaneous_observers": maxInflight})
 	c.Finish("exploration",
-		"built with the Go race detector (-race, halt_on_error=0, reports read from the log files and de-duplicated by go-pipeline frames). (A) 16 goroutines each run the whole life cycle (generate, Parse, Interpolate, matrix interpolation, marshal to JSON and YAML, SignSteps, Verify) on their own documents, released by a start barrier; the same work is then repeated sequentially and JSON/YAML bytes, Ed25519 signature bytes and outcomes are compared. (B) shared read-only fixtures - an ordered map carrying tombstones and nested maps, a parsed and signed pipeline, a key set, one private key with one shared step, a plugin, a validated key - are hit by 16 goroutines x 12 random observers per round (Get, Contains, Len, IsZero, Range, ToMap, ToMapRecursive, Equal against itself and a twin, both marshallers of map and pipeline, Verify of every shared step against the shared key set, Sign with the shared key, FullSource, Validate, matrix token interpolation, Parse) with results compared to the sequential ones; an atomic gauge records the overlap achieved. (C) sequentially, deep state (slot layout + index through the hook, model trees) is compared before/after every observer. distinct_nontrivial counts distinct observer kinds and disjoint outcome classes",
+		"built with the Go race detector (-race, halt_on_error=0, reports read from the log files and de-duplicated by go-pipeline frames). (A) 16 goroutines each run the whole life cycle (generate, Parse, Interpolate, matrix interpolation, marshal to JSON and YAML, SignSteps, Verify) on their own documents, released by a start barrier; the same work is then repeated sequentially and JSON/YAML bytes, Ed25519 signature bytes and outcomes are compared. (B) shared read-only fixtures - an ordered map carrying tombstones and nested maps, a parsed and signed pipeline, a key set, one private key with one shared step, a plugin, a validated key - are hit by 16 goroutines x 12 random observers per round (Get, Contains, Len, IsZero, Range, ToMap, ToMapRecursive, Equal against itself and a twin, both marshallers of map and pipeline, Verify of every shared step against the shared key set, Sign with the shared key, FullSource, Validate, matrix token interpolation, Parse) with results compared to the sequential ones; an atomic gauge records the overlap achieved. (C) sequentially, deep state (slot layout + index through the hook, model trees, deep copies incl. unexported fields, the env map and the key set) is compared before/after every observer. (D) the life cycle (Parse incl. warning text, Interpolate, marshalling, SignSteps, Verify) of generated and of all corpus documents is run at the end of this long-lived process, forwards and backwards, and once each in a fresh child process of the same binary; results must be identical (no dependence on what the process did before). distinct_nontrivial counts distinct observer kinds and disjoint outcome classes",
 		map[string]any{"race_detector": raceOn},
 		[]string{"the race detector only sees accesses that executed", "ECDSA/RSA-PSS signatures are randomised and compared by verification, Ed25519 bytewise"})
 }
